@@ -40,9 +40,13 @@ class Monitor:
     # -- recording -------------------------------------------------------------------
     def ev(self, name, n=1):
         self.evals[name] += n
-        self.ticks += 1
-        if not self.ticks & 255 and self.rearm:
-            self.rearm()      # the watchdog budget is per stretch without any oracle evaluation, so bulk cases do not trip it
+
+    def progress(self):
+        """called by the workload loop of a bulk case between two library calls: re-arms the CPU watchdog, whose budget is
+        therefore per workload step (never re-armed from inside a contract: a library loop that keeps calling a
+        contracted function must still trip it)"""
+        if self.rearm:
+            self.rearm()
 
     def count(self, name, n=1):
         self.counters[name] += n
@@ -69,9 +73,6 @@ class Monitor:
     def check(self, name, ok, sig, what="", **detail):
         """one oracle evaluation of monitor `name`"""
         self.evals[name] += 1
-        self.ticks += 1
-        if not self.ticks & 255 and self.rearm:
-            self.rearm()
         if not ok:
             self.viol(sig, what or name, **detail)
         return ok
